@@ -240,6 +240,9 @@ CONFIGS = {
     # several overdue deadlines (different past ticks) scheduled in the same instant, after earlier actions have run
     ({'res': 0.01, 'dts': [-0.0325, -0.0225, -0.0125, 0.0125], 'advs': [0.02],
       'max_actions': 4, 'max_preempt': 2, 'preempt_depth': 1}, 6),
+    # deadlines exactly on a tick (2.0 s at a resolution of 1 s: exact in binary floating point) and a hair past a tick (2.0004 s)
+    ({'res': 1, 'dts': [0.02, 0.020004, 0.0125, 0.0], 'advs': [0.005, 0.02],
+      'max_actions': 3, 'max_preempt': 1, 'preempt_depth': 2}, 5),
     # many pending actions scheduled in every order of five deadlines (the queue's heap gets several levels deep)
     ({'res': 0.01, 'dts': [0.0025, 0.0125, 0.0225, 0.0325, 0.0425], 'advs': [], 'kinds': 'S',
       'max_actions': 7, 'max_preempt': 0, 'preempt_depth': 1}, 7),
@@ -314,7 +317,9 @@ def main(tier, seed):
     pool.join()
   rep.assumptions += [
     'one virtual clock: TimerQueue time source, gevent loop time and timer expiry agree exactly',
-    'deadlines are off-tick (x.xx25 offsets); deadlines exactly on a tick are outside the alphabet',
+    'deadlines are off-tick (x.xx25 offsets), plus - at the 1 s resolution, where the values are exact in binary floating point - '
+    'deadlines exactly on a tick and 0.4 ms past a tick; on-tick deadlines at the 10 ms resolution are outside the alphabet '
+    '(whether d/0.01 is integral there is an accident of floating point)',
     'loop timers fire only when the ready-callback queue is empty; preemption = an operation issued between two ready callbacks',
   ]
   return rep.finish(
